@@ -123,6 +123,17 @@ func prBuildResult(r *prRes, i int, named map[string]bool) (*benchfmt.Result, er
 // model's tokens are preserved ("" < "*" < N1 < N2 becomes "" < "*" < R-o1 < R-o2).
 func prDashBases(c *prCase) {
 	r := strings.NewReplacer("N1", "R-o1", "N2", "R-o2")
+	// where every name of the stream has a sub-name part after the base, the base itself may end
+	// in -<digits> (CRC-32/poly=IEEE-8): that is part of the base, not a GOMAXPROCS suffix
+	allParts := true
+	for i := range c.Stream {
+		if c.Stream[i].X == "" && c.Stream[i].XY == "" {
+			allParts = false
+		}
+	}
+	if allParts && c.ID%4 == 3 {
+		r = strings.NewReplacer("N1", "R-32", "N2", "R-64")
+	}
 	for i := range c.Stream {
 		c.Stream[i].Base = r.Replace(c.Stream[i].Base)
 	}
@@ -143,6 +154,8 @@ func prReplay(c *prCase, focus string) Verdict {
 	var parser benchproc.ProjectionParser
 	projs := make([]*benchproc.Projection, len(c.Proj))
 	filters := make([]*benchproc.Filter, len(c.Proj))
+	unitFields := make([]*benchproc.Field, len(c.Proj))
+	withUnit := c.ID%4 == 2
 	for i, p := range c.Proj {
 		if p.ID == "residue" {
 			if i != len(c.Proj)-1 {
@@ -159,9 +172,28 @@ func prReplay(c *prCase, focus string) Verdict {
 		if err != nil {
 			return fail("harness", "NewFilter(*): %v", err)
 		}
-		pr, err := parser.Parse(expr, f)
-		if err != nil {
-			return fail("parse-error", "Parse(%q): %v", expr, err)
+		var pr *benchproc.Projection
+		if withUnit {
+			// the with-unit variant: one more field, .unit, after all others; per-result keys have
+			// it empty, per-value keys carry the value's unit - in whatever order the two entry
+			// points are used
+			var uf *benchproc.Field
+			pr, uf, err = parser.ParseWithUnit(expr, f)
+			if err != nil {
+				return fail("parse-error", "ParseWithUnit(%q): %v", expr, err)
+			}
+			unitFields[i] = uf
+			c.Proj[i].Flat = append(append([]string(nil), p.Flat...), ".unit")
+			for j := range c.Proj[i].Vals {
+				if c.Proj[i].Vals[j] != nil {
+					c.Proj[i].Vals[j] = append(append([]string(nil), c.Proj[i].Vals[j]...), "")
+				}
+			}
+		} else {
+			pr, err = parser.Parse(expr, f)
+			if err != nil {
+				return fail("parse-error", "Parse(%q): %v", expr, err)
+			}
 		}
 		projs[i], filters[i] = pr, f
 	}
@@ -207,7 +239,22 @@ func prReplay(c *prCase, focus string) Verdict {
 				return fail("badcase", "rejection without filter")
 			}
 			var k benchproc.Key
-			if rng.Intn(3) == 0 {
+			if unitFields[pi] != nil {
+				// history: the per-value entry point first, then the per-result one
+				ks := projs[pi].ProjectValues(r)
+				if len(ks) != len(r.Values) {
+					return fail("projectvalues", "ProjectValues returned %d keys for %d values", len(ks), len(r.Values))
+				}
+				for vi, kv := range ks {
+					if got := kv.Get(unitFields[pi]); got != r.Values[vi].Unit {
+						return fail("key-get", "projection %s result %d value %d: per-value key has .unit %q, the value's unit is %q", p.ID, i, vi, got, r.Values[vi].Unit)
+					}
+				}
+				k = projs[pi].Project(r)
+				if got := k.Get(unitFields[pi]); got != "" {
+					return fail("key-get", "projection %s result %d: per-result key (after a per-value call) has .unit %q, want \"\"", p.ID, i, got)
+				}
+			} else if rng.Intn(3) == 0 {
 				ks := projs[pi].ProjectValues(r)
 				if len(ks) != len(r.Values) {
 					return fail("projectvalues", "ProjectValues returned %d keys for %d values", len(ks), len(r.Values))
